@@ -18,6 +18,7 @@
                          framing; sync side = C12's NV.Io.Run *)
 From Coq Require Import List Arith NArith Bool.
 From NV Require Bgzf.Vpos Bgzf.Gzi Bgzf.ReaderOps Io.Sched Io.SchedProofs Async.Reader Async.ReaderProofs.
+From NV Require Async.Lines Async.LinesProofs Async.WriteAll Async.WriteAllProofs Fasta.Fastq.
 From NV Require Async.PollSeek Async.PollSeekProofs.
 From NV Require Base.LE Bgzf.Crc32 Bgzf.Frame Bgzf.Writer Async.Writer Async.WriterProofs.
 From NV Require Io.Source Io.ReadExact Io.ReadExactProofs Io.Run Io.RunProofs Async.ReadExact Async.ReadExactProofs.
@@ -358,3 +359,132 @@ Example c16_bam_framing_example :
   /\ fst (bam_read_records 4 (mkSource data [Interrupted; Deliver 2])) = [RecOk 33; RecUnexpectedEof].
 Proof. vm_compute. split; reflexivity. Qed.
 End RX.
+
+(* ============================================================================================
+   The async line-based readers (gff read_line, fastq read_record, fasta read_sequence) over tokio's
+   BufReader (any capacity >= 1) over ANY poll script: models NV.Async.Lines (the awaited source is
+   C12's reader [aread]; tokio BufReader / read_until / read_u8 are C12's BufReader model on it).
+   Sync side: C12's runners NV.Io.Run over any delivery script and any capacity.
+   ============================================================================================ *)
+Module LN.
+Import NV.Io.Source NV.Io.BufReader NV.Io.FastaScan NV.Io.Run.
+Import NV.Async.ReadExact NV.Async.Lines NV.Async.LinesProofs.
+
+(* gff::async::io::Reader::read_line until 0 (read_until(LF), LF / CR LF stripped, blank lines
+   skipped): for every data, every poll script [codes] and capacities, the (byte count, line)
+   sequence is the one the sync reader yields under every delivery script [sc] (incl. Interrupted) *)
+Theorem c16_async_gff_lines_equal_sync :
+  forall cap cap' codes sc data, 1 <= cap -> 1 <= cap' ->
+    fst (async_gff_case cap codes data) = fst (gff_lines cap' 64 ([], mkSource data sc)).
+Proof. exact async_gff_lines_equal_sync. Qed.
+Print Assumptions c16_async_gff_lines_equal_sync.
+
+(* fastq async read_record (read_u8 + whole-line read_line + memchr2 split; read_u8 + read_line for
+   the plus line) until Ok(0) / the first error: records and ending equal C11's whole-buffer
+   read_qfile of the data, hence those of the sync reader (memchr3 window scanner + consume_line)
+   under every delivery -- for every data (malformed included), poll script and capacity *)
+Theorem c16_async_fastq_records_closed :
+  forall cap codes data, 1 <= cap ->
+    fst (async_fastq_case cap codes data) = NV.Fasta.Fastq.read_qfile data.
+Proof. exact async_fastq_closed. Qed.
+Print Assumptions c16_async_fastq_records_closed.
+
+Theorem c16_async_fastq_records_equal_sync :
+  forall cap cap' codes sc data, 1 <= cap -> 1 <= cap' ->
+    fst (async_fastq_case cap codes data) = fst (run_fastq cap' (mkSource data sc)).
+Proof. exact async_fastq_equals_sync. Qed.
+Print Assumptions c16_async_fastq_records_equal_sync.
+
+(* the name line alone: whole line + split at the first SP / HT = the sync window scanner *)
+Theorem c16_async_fastq_name_line_is_sync :
+  forall t, NV.Fasta.Fastq.read_definition (NV.Fasta.Fastq.AT :: t) = inr (Some (a_def_closed t)).
+Proof. exact a_def_closed_is_sync. Qed.
+Print Assumptions c16_async_fastq_name_line_is_sync.
+
+(* fasta async read_sequence (one loop with has_pending_cr / is_bol carried across fills): for
+   every data, poll script and capacity the sequence is the closed form aseq_out on the flat data --
+   in particular independent of the poll script and of where the fills fall *)
+Theorem c16_async_fasta_sequence_closed :
+  forall fx cap codes data, 1 <= cap ->
+    exists n st', a_read_sequence aread cap ab_fuel fx (ab_start data codes)
+                  = (SOk, aseq_out fx BOL data, n, st').
+Proof. exact async_fasta_sequence_closed. Qed.
+Print Assumptions c16_async_fasta_sequence_closed.
+
+(* the loop of /repo (fx = false) equals the sync read_sequence whenever no sequence line starts
+   with a CR followed by a byte other than LF ... *)
+Theorem c16_async_fasta_sequence_equals_sync :
+  forall cap cap' codes sc data, 1 <= cap -> 1 <= cap' -> no_bol_cr BOL data = true ->
+    snd (fst (fst (a_read_sequence aread cap ab_fuel false (ab_start data codes))))
+    = snd (fst (run_read_sequence cap' (mkSource data sc))).
+Proof. exact async_fasta_sequence_equals_sync. Qed.
+Print Assumptions c16_async_fasta_sequence_equals_sync.
+
+(* ... and differs on "\rA\n" (sync: "A", async: "\rA"): finding async-fasta-bol-cr-kept *)
+Theorem c16_async_fasta_bol_cr_refuted :
+  exists data,
+    snd (fst (fst (a_read_sequence aread 8 ab_fuel false (ab_start data []))))
+    <> snd (fst (run_read_sequence 8 (mkSource data []))).
+Proof. exact async_fasta_bol_cr_refuted. Qed.
+Print Assumptions c16_async_fasta_bol_cr_refuted.
+
+(* with the one-line repair (skip a CR at the beginning of a line, fx = true) the async sequence is
+   the sync sequence for ALL data *)
+Theorem c16_async_fasta_sequence_fixed_equals_sync :
+  forall cap cap' codes sc data, 1 <= cap -> 1 <= cap' ->
+    snd (fst (fst (a_read_sequence aread cap ab_fuel true (ab_start data codes))))
+    = snd (fst (run_read_sequence cap' (mkSource data sc))).
+Proof. exact async_fasta_sequence_fixed_equals_sync. Qed.
+Print Assumptions c16_async_fasta_sequence_fixed_equals_sync.
+
+(* non-vacuity: CR LF split over fills, a CR in mid-line, '>' in mid-line, a final CR; capacity 2,
+   1-byte transfers with Pending polls *)
+Example c16_async_lines_example :
+  let data := [65; 67; 13; 10; 71; 13; 84; 62; 10; 13; 10; 65; 13]%N in
+  let codes := [0; 2; 0; 2; 2; 0; 0; 2] in
+  snd (fst (fst (a_read_sequence aread 2 ab_fuel false (ab_start data codes)))) = [65; 67; 71; 13; 84; 62; 65]%N
+  /\ no_bol_cr BOL data = true
+  /\ fst (async_gff_case 3 codes [10; 35; 97; 13; 10; 9; 10; 98]%N) = [(4, [35; 97]%N); (1, [98]%N)].
+Proof. vm_compute. repeat split; reflexivity. Qed.
+End LN.
+
+(* ============================================================================================
+   The write loops between the async writers and their sink (model NV.Async.WriteAll): tokio's
+   write_all (every async text writer) and tokio-util's FramedWrite (the async BGZF writer), over a
+   sink that accepts any number >= 1 of the offered bytes per Ready poll and returns Pending at will.
+   ============================================================================================ *)
+Module WL.
+Import NV.Async.WriteAll NV.Async.WriteAllProofs.
+
+(* one write_all: never fails, the sink receives exactly the buffer, after what it held; every
+   Ready poll accepted between 1 and the offered number of bytes *)
+Theorem c16_write_all_any_partial_write_script :
+  forall fuel s buf, length buf < fuel ->
+    exists p lg, write_all_loop fuel s buf = (WOk, mkASink (k_bytes s ++ buf) p (k_log s ++ lg))
+      /\ fold_right (fun x acc => snd x + acc) 0 lg = length buf
+      /\ Forall (fun x => 0 < snd x <= fst x) lg.
+Proof. exact write_all_loop_spec. Qed.
+Print Assumptions c16_write_all_any_partial_write_script.
+
+(* a whole writer run = any sequence of write_all calls: the sink holds the concatenation of the
+   buffers -- the bytes the sync writer (same encoder calls, io::Write::write_all) hands its sink *)
+Theorem c16_async_text_writer_sink_equals_encoded_bytes :
+  forall bufs s, exists p lg,
+    write_calls s bufs = (WOk, mkASink (k_bytes s ++ concat bufs) p (k_log s ++ lg)).
+Proof. exact write_calls_spec. Qed.
+Print Assumptions c16_async_text_writer_sink_equals_encoded_bytes.
+
+(* FramedWrite: for every backpressure boundary, every interleaving of start_send / flush and every
+   partial-write script, close leaves the buffer empty and the sink holding the frames in order *)
+Theorem c16_framed_write_any_partial_write_script :
+  forall boundary ops st, exists st',
+    fw_close boundary st ops = (WOk, st') /\ fw_buf st' = []
+    /\ k_bytes (fw_sink st') = k_bytes (fw_sink st) ++ fw_buf st ++ frames_of ops.
+Proof. exact fw_close_spec. Qed.
+Print Assumptions c16_framed_write_any_partial_write_script.
+
+Example c16_write_all_example :
+  async_write_case [0; 2; 0; 0; 3; 1] [1; 3; 2] [62; 115; 113; 48; 10; 65]%N
+  = (WOk, [62; 115; 113; 48; 10; 65]%N, [(1, 1); (3, 2); (1, 1); (2, 2)]).
+Proof. vm_compute. reflexivity. Qed.
+End WL.
